@@ -6,8 +6,10 @@ gzip sniffing, format dispatch by file name, memory-mapped vs in-memory reads.
 Mirrors `tme/density.py`: `Density.from_file`, `_load_mrc`, `_load_em`, `_validate_slices`,
 `_read_binary_subset`, `_load_hdf5` (slicing only), `to_file`, `_save_mrc`, `_save_em`,
 `is_gzipped` — after the `fix:` commits of this property (EM dimension order, EM sub-box dtype,
-exact full-box shortcut, memmap on compressed input).  The pre-fix variants are kept
-(`emHeaderOld`, `allcloseShape`) for the `…_current_defect` witnesses.
+exact full-box shortcut, memmap on compressed input, float32 payload for dtypes without an EM
+type code, sub-box axes under a permuted `mapc/mapr/maps`).  The pre-fix variants are kept
+(`emHeaderOld`, `allcloseShape`, `emWriteDtypeOld`, `mrcCrsBoxOld`) for the `…_current_defect`
+witnesses.
 
 A file is a list of bytes (`Nat < 256`).  A voxel is its bit pattern, a `Nat < 256^b` (`b` =
 item size), so "exactly, as 32-bit floats" is identity of bit patterns.  Floating-point casts
@@ -107,6 +109,18 @@ def dtypeSize : String → Option Nat
 def emCodeOf (dtype : String) : Nat := ((emSaveTable.find? (·.1 == dtype)).map (·.2)).getD 5
 def emDtypeOf (code : Nat) : Option String := (emLoadTable.find? (·.1 == code)).map (·.2)
 def emItemsize (code : Nat) : Option Nat := (emDtypeOf code).bind dtypeSize
+
+/-- the dtype `_save_em` puts on disk (after `fix: store dtypes without an EM type code as float32`):
+a dtype that has an EM type code is written as it is, every other one (unsigned, half precision,
+64-bit integers, bool, non-native byte order — the harness names those `…-be`) is cast to float32 -/
+def emWriteDtype (dtype : String) : String :=
+  if emSaveTable.any (·.1 == dtype) then dtype else "float32"
+
+/-- the type code `_save_em` writes for a density held as `dtype` -/
+def emWriteCode (dtype : String) : Nat := emCodeOf (emWriteDtype dtype)
+
+/-- before that fix: the code defaulted to 5 (float32) while the payload stayed in `dtype` -/
+def emWriteDtypeOld (dtype : String) : String := dtype
 
 /-- `b" " * n` -/
 def spaces (n : Nat) : Bytes := List.replicate n 32
@@ -305,5 +319,43 @@ def mrcRead (h : MrcFields) : Res MrcParsed :=
   let origin := if allTiny origin && !(start.all (· == 0))
     then List.zipWith (fun (s : Int) r => (s : Rat) * r) start rate else origin
   .ok ⟨h.nxyz.reverse, origin, rate, 1024 + h.nsymbt, crs⟩
+
+/-! ## MRC files with a non-standard `mapc/mapr/maps`
+
+`_load_mrc` returns `np.transpose(data, crs)` (`crs = (mapc-1, mapr-1, maps-1)`), so axis `k` of
+what the caller sees is file axis `crs[k]`; a sub-box is given in the caller's axes. -/
+
+/-- `[l[p[0]], l[p[1]], …]` (`np.take(l, p)`; the shape of `np.transpose(a, p)`) -/
+def permute {α : Type} (p : List Nat) (l : List α) (d : α) : List α := p.map (fun i => l.getD i d)
+
+/-- `np.argsort(p)` for a permutation `p` of `0..n-1`: the position of `j` in `p` -/
+def invPerm (p : List Nat) : List Nat := (List.range p.length).map (fun j => p.idxOf j)
+
+/-- `np.transpose(a, p)`: `out[idx] = a[j]` with `j[p[k]] = idx[k]` -/
+def transposeArr (a : Arr Nat) (p : List Nat) : Arr Nat :=
+  Arr.ofFn (permute p a.shape 0) (fun idx => a.getD (permute (invPerm p) idx 0) 0)
+
+/-- the box handed to the row reader, in file axes (after `fix: sub-box of an MRC file with permuted
+MAPC/MAPR/MAPS …`): file axis `j` is the caller's axis `argsort(crs)[j]`; missing entries are full -/
+def mrcCrsBox (crs : List Nat) (box : Box) (shape : List Nat) : Box :=
+  (List.range shape.length).map (fun j => box.getD ((invPerm crs).getD j 0) (0, (shape.getD j 0 : Int)))
+
+/-- before the fix: file axis `j` got the caller's entry `crs[j]` (right only when `crs∘crs = id`) -/
+def mrcCrsBoxOld (crs : List Nat) (box : Box) (shape : List Nat) : Box :=
+  (List.range shape.length).map (fun j => box.getD (crs.getD j 0) (0, (shape.getD (crs.getD j 0) 0 : Int)))
+
+/-- `_load_mrc(subset=box)` for any axis order: row reader on the file-order box, then the same
+transposition as the full read -/
+def mrcLoadSubsetCrs (f : Bytes) (header : Nat) (shape : List Nat) (b : Nat) (crs : List Nat) (box : Box) :
+    Res (Arr Nat) :=
+  match loadSubset f header shape b (mrcCrsBox crs box shape) with
+  | .ok a => .ok (transposeArr a crs)
+  | .err e => .err e
+
+def mrcLoadSubsetCrsOld (f : Bytes) (header : Nat) (shape : List Nat) (b : Nat) (crs : List Nat) (box : Box) :
+    Res (Arr Nat) :=
+  match loadSubset f header shape b (mrcCrsBoxOld crs box shape) with
+  | .ok a => .ok (transposeArr a crs)
+  | .err e => .err e
 
 end Pm.C08
